@@ -1614,6 +1614,49 @@ fn search_iface_names(obs: &[&str]) {
     for ob in obs { emit(ob, found.is_some(), explored, found.clone().unwrap_or(Value::Null)); }
 }
 
+// C11, BOUNDED (not a proof): every type expression made of <= 5 of the tokens `?`, `[]`, `[string]`, `bool`, `Foo`, `(a: int)`, `(one, two)` is used as the type of a method
+// parameter; the definition must be accepted exactly when the expression follows the documented grammar: a basic type (primitive, type name, struct, enum), optionally
+// preceded by ONE `?`; or `[]` / `[string]` (optionally preceded by ONE `?`) followed by a type expression.  A `?` directly in front of another `?` is not a type.
+fn search_type_exprs(obs: &[&str]) {
+    use std::convert::TryFrom;
+    use varlink_parser::IDL;
+    let mut found: Option<Value> = None;
+    let mut explored = 0usize;
+    let toks = ["?", "[]", "[string]", "bool", "Foo", "(a: int)", "(one, two)"];
+    fn is_basic(t: &str) -> bool { !matches!(t, "?" | "[]" | "[string]") }
+    // reference recogniser over the token sequence
+    fn ty(ts: &[&str]) -> bool {
+        match ts.first() {
+            None => false,
+            Some(&"?") => match ts.get(1) { Some(&"?") | None => false, Some(t) if is_basic(t) => ts.len() == 2, Some(_) => ty(&ts[2..]) },
+            Some(&"[]") | Some(&"[string]") => ty(&ts[1..]),
+            Some(_) => ts.len() == 1,
+        }
+    }
+    let mut seqs: Vec<Vec<&str>> = vec![vec![]];
+    let mut frontier: Vec<Vec<&str>> = vec![vec![]];
+    for _ in 0..5 {
+        let mut next = Vec::new();
+        for s in &frontier { for t in toks { let mut n = s.clone(); n.push(t); next.push(n); } }
+        seqs.extend(next.iter().cloned());
+        frontier = next;
+    }
+    for ts in seqs {
+        if ts.is_empty() { continue; }
+        // two word tokens next to each other would concatenate into ONE (different) type name: not a sequence of these tokens any more
+        if ts.windows(2).any(|w| matches!(w[0], "bool" | "Foo") && matches!(w[1], "bool" | "Foo")) { continue; }
+        explored += 1;
+        let expr: String = ts.concat();
+        let text = format!("interface org.example.t\n\ntype Foo (x: int)\n\nmethod F(p: {}) -> ()\n", expr);
+        let got = IDL::try_from(text.as_str()).is_ok();
+        let want = ty(&ts);
+        if got != want && found.is_none() {
+            found = Some(json!({"type_expression": expr, "accepted": got, "expected_accepted": want}));
+        }
+    }
+    for ob in obs { emit(ob, found.is_some(), explored, found.clone().unwrap_or(Value::Null)); }
+}
+
 fn main() {
     if std::env::args().nth(1).as_deref() == Some("--bridge-probe") {
         std::process::exit(bridge_probe(&std::env::args().nth(2).unwrap_or_default()));
@@ -1650,6 +1693,7 @@ fn main() {
     if !lt.is_empty() { search_listen_time(&lt); }
     if m("C15.unlink") { search_unlink("C15.unlink"); }
     if m("C11.iface-name-bounded") { search_iface_names(&["C11.iface-name-bounded"]); }
+    if m("C11.type-expr-bounded") { search_type_exprs(&["C11.type-expr-bounded"]); }
     let idl: Vec<&str> = ["C11.dups-reported", "C11.reject-dups", "C11.no-false-dups", "C11.accept", "C11.order", "C11.mirror", "C11.reject-syntax", "C11.no-panic"].iter().cloned().filter(|o| m(o)).collect();
     if !idl.is_empty() { search_idl(&idl); }
     let ad: Vec<&str> = ["C16.scheme", "C16.params", "C16.activation", "C16.no-panic"].iter().cloned().filter(|o| m(o)).collect();
